@@ -238,6 +238,8 @@ pub struct Repair<N: Network> {
     blockstore: SharedBlockstore,
     pool: SharedPool,
     slice_roots: BTreeMap<(BlockId, SliceIndex), SliceRoot>,
+    /// Proven index of the last slice of each block under repair.
+    last_slices: BTreeMap<BlockId, SliceIndex>,
     outstanding_requests: BTreeMap<Hash, RepairRequestType>,
     /// Expiry times of outstanding requests, earliest first (min-heap via [`Reverse`]).
     request_timeouts: BinaryHeap<Reverse<(Instant, Hash)>>,
@@ -266,6 +268,7 @@ where
             blockstore,
             pool,
             slice_roots: BTreeMap::new(),
+            last_slices: BTreeMap::new(),
             outstanding_requests: BTreeMap::new(),
             request_timeouts: BinaryHeap::new(),
             network,
@@ -373,6 +376,7 @@ where
 
                 // store slice Merkle root
                 self.outstanding_requests.remove(&request_hash);
+                self.last_slices.insert(block_id.clone(), last_slice);
                 self.slice_roots
                     .insert((block_id.clone(), last_slice), root);
 
@@ -428,6 +432,15 @@ where
                 let Some(root) = self.slice_roots.get(&(block_id.clone(), slice)) else {
                     unreachable!("issued repair request (Shred) before knowing slice root");
                 };
+                // the last-slice marker is signed by the leader but not covered by the block hash,
+                // so it has to agree with the proven number of slices of the requested block
+                let Some(last_slice) = self.last_slices.get(block_id) else {
+                    unreachable!("issued repair request (Shred) before knowing last slice");
+                };
+                if shred.payload().header.is_last != (slice == *last_slice) {
+                    warn!("repair response (Shred) with contradicting last-slice marker");
+                    return;
+                }
                 let leader_pk = &self.epoch_info.epoch_info().leader(*slot).pubkey;
                 // shred for the wrong slice root, don't even try to verify signature
                 if &shred.slice_root() != root {
